@@ -3,7 +3,6 @@ package main
 import (
 	"fmt"
 	"sort"
-	"strings"
 
 	"github.com/samber/lo"
 	corev1 "k8s.io/api/core/v1"
@@ -110,7 +109,7 @@ func partWeight(c *kit.Ctx) {
 	rec(nil, 0)
 	nRand := 150
 	if c.Thorough() {
-		nRand = 1500
+		nRand = 800
 	}
 	for i := 0; i < nRand; i++ {
 		r := c.Rand.Fork()
@@ -347,7 +346,7 @@ func runPrice(c *kit.Ctx, r *kit.Rand, its cloudprovider.InstanceTypes, rq sched
 func partPrice(c *kit.Ctx) {
 	nRand := 500
 	if c.Thorough() {
-		nRand = 7000
+		nRand = 3500
 	}
 	for i := 0; i < nRand; i++ {
 		r := c.Rand.Fork()
@@ -403,7 +402,7 @@ func emitToNodeClaim(c *kit.Ctx, kind string, gRq string, jRq []jReq, gIn string
 func partToNodeClaim(c *kit.Ctx) {
 	nRand := 200
 	if c.Thorough() {
-		nRand = 3000
+		nRand = 1200
 	}
 	defer func(old int) { sched.MaxInstanceTypes = old }(sched.MaxInstanceTypes)
 	for i := 0; i < nRand; i++ {
@@ -438,5 +437,3 @@ func partToNodeClaim(c *kit.Ctx) {
 		emitToNodeClaim(c, "unit", gRq, jRq, gIn, jIn, len(its), n, names(its), nc)
 	}
 }
-
-var _ = strings.Join
